@@ -53,4 +53,50 @@ def destsOf : List Nat → List Byte → List (List Byte)
   | [], _ => []
   | k :: rest, bytes => if k = 0 then [] :: destsOf rest bytes else bytes :: rest.map (fun j => List.replicate j DEST_FILL)
 
+/-! ### the provided methods `write_all`, `write_fmt`, `read_exact` (trait defaults over `write` / `read`) -/
+
+/-- `Write::write_all(data)`, default implementation, on a writer whose `write` is all-or-nothing: no call for empty
+    data, otherwise one `write` -/
+def stepWA (oc : Bool) (b : Buf) (d : List Byte) : Buf × Out :=
+  if d = [] then (b, { cls := .ok }) else
+  match step oc b (.ioWrite d) with
+  | (b', o) => (b', { cls := o.cls })
+
+/-- `Write::write_fmt` with these string pieces (literal parts and formatted arguments in order): the default
+    implementation `write_all`s each piece in turn and stops at the first failure, whose error it returns -/
+def stepWF (oc : Bool) : Buf → List (List Byte) → Buf × Out
+  | b, [] => (b, { cls := .ok })
+  | b, p :: ps =>
+    match stepWA oc b p with
+    | (b', o) => if o.cls == .ok then stepWF oc b' ps else (b', { cls := o.cls })
+
+/-- C01 / C03 / C04 for `write_fmt(pieces)` (also `write_all`, with one piece): on success everything was appended in
+    order; on failure some whole leading pieces were (possibly none) and the whole did not fit; the error is the
+    buffer's own InvalidData; nothing else changes -/
+def Sat_WF (b : Buf) (pieces : List (List Byte)) (out : Out) (post : Obs) : Bool :=
+  let total := pieces.flatten
+  validObs b post &&
+  match out.cls with
+  | .ok => post.rd == b.readable ++ total && post.free + total.length == b.free
+  | .err k =>
+    k == EK_InvalidData && decide (b.free < total.length) &&
+    (List.range (pieces.length + 1)).any fun j =>
+      post.rd == b.readable ++ (pieces.take j).flatten && post.free + (pieces.take j).flatten.length == b.free
+  | _ => false
+
+/-- `Read::read_exact` into a destination of length `d`, default implementation over `FixedBuf`'s `read` -/
+def stepRE (oc : Bool) (b : Buf) (d : Nat) : Buf × Out :=
+  match step oc b (.ioRead d) with
+  | (b', o) => if d ≤ b.len then (b', o) else (b', { o with cls := .err EK_UnexpectedEof })
+
+/-- C01 / C03 / C04 for `read_exact`: success iff enough is unread, then exactly the next `d` bytes are handed out;
+    otherwise UnexpectedEof, and what is still unread is a suffix of what was -/
+def Sat_RE (b : Buf) (d : Nat) (dest : List Byte) (out : Out) (post : Obs) : Bool :=
+  validObs b post && decide (b.free ≤ post.free) && (dest.length == d) &&
+  match out.cls with
+  | .ok => decide (d ≤ b.len) && dest == b.readable.take d && post.rd == b.readable.drop d
+  | .err k => k == EK_UnexpectedEof && decide (b.len < d) && post.rd.isSuffixOf b.readable &&
+      dest.take (b.len - post.rd.length) == b.readable.take (b.len - post.rd.length)
+  | _ => false
+
 end FBV
